@@ -108,17 +108,36 @@ fn run_history(sim: &mut Sim, cfg: &Config, steps: &[(Op, usize)], acc: &mut Acc
         tls.insert(k, Box::new(key_tl(cfg, k).unwrap().build_cv()));
     }
     // construct through the public constructors and through the builders alternately
+    // the first key "assignment" is the one given at construction
+    let first_key = [Key::Idle, Key::Idle, Key::Go, Key::Done, Key::NoTl][(index % 5) as usize];
     let selector = if index % 2 == 0 {
-        AnimationSelector::<Key, Cv>::new(tls, Key::Idle)
+        AnimationSelector::<Key, Cv>::new(tls, first_key)
     } else {
         drop(tls);
         let mut b = AnimationSelectorBuilder::<Key, Cv>::new();
         for k in [Key::Idle, Key::Go, Key::Done] {
             b = b.add(k, key_tl(cfg, k).unwrap().build_cv());
         }
-        b.initial_key(Key::Idle).build()
+        b.initial_key(first_key).build()
     };
-    let e = sim.app.world.spawn((init.clone(), Animator::<Cv>::new(), selector)).id();
+    let e = sim.app.world.spawn((init.clone(), if index % 3 == 0 { Animator::<Cv>::default() } else { Animator::<Cv>::new() }, selector)).id();
+    {
+        let f = snap::<Cv>(sim, e);
+        let k0 = sim.app.world.get::<AnimationSelector<Key, Cv>>(e).unwrap().timeline_key;
+        acc.eval();
+        if f.state != AnimationState::None || f.pos != Duration::ZERO || !f.enabled || k0 != first_key {
+            acc.violation(
+                "c19:fresh-entity",
+                format!(
+                    "freshly constructed selector/animator: key {:?} (constructed with {:?}), animator state {:?}, position {:?}, enabled {}; expected the given key, None, 0, true",
+                    k0, first_key, f.state, f.pos, f.enabled
+                ),
+                case_json(stream, index, vec![("configuration", J::s(cfg.name.clone())), ("clause", J::s("the key given at construction is the first key; a fresh animator is enabled and at rest"))]),
+            );
+            sim.app.world.despawn(e);
+            return;
+        }
+    }
     if let Some(ch) = &cfg.chain {
         if ch.len() == 1 && ch[0].1 == Key::default() && index % 2 == 1 {
             sim.app.world.entity_mut(e).insert(AnimationChain::<Key>::reset_after(ch[0].0));
